@@ -12,7 +12,10 @@ W1 result bounds are only ever intersected: PreprocessInfo::narrow_result_bounds
    bounds, and no overload writes the bounds directly;
 B1 interval helpers: the linear bound sum takes the lower bound for non-negative and the upper bound for
    negative coefficients (and vice versa); products take min/max over the four corner products; squares
-   include 0 when the domain crosses it; min/max array helpers fold with the right operation.
+   include 0 when the domain crosses it; min/max array helpers fold with the right operation;
+D1 downward propagation: the bounds a PropagateResult overload hands to an argument variable are from the table
+   of sound bounds of its constraint kind (not: [1-ub, 1-lb]; and: [lb, 1]; or: [0, ub]; logical arguments
+   [0, 1]; otherwise unbounded).
 """
 import math
 import re
@@ -28,7 +31,8 @@ TECHNIQUE = ("static analysis: constant folding of the range arguments against a
 LEVEL_TEXT = ("Decided: the argument-independent clauses - constant result ranges contain the function's range, "
               "integrality is literal only for 0/1 and counting results, replacements by a variable or constant "
               "happen only under the conditions that make them exact, bounds are only intersected, the interval "
-              "helpers pick the right corner per coefficient sign.  Not decided: numeric soundness of the "
+              "helpers pick the right corner per coefficient sign, bounds pushed down from a result to its arguments are "
+              "sound for the constraint kind.  Not decided: numeric soundness of the "
               "data-dependent ranges (pow, div, quadratic, piecewise-linear) for all argument domains, incl. "
               "rounding; the deliberate restriction of log's argument to x >= 1e-6.")
 LEVEL_NOTE = "Trusted: clang 14 front end/CFG, tool/mpx.cc, the rule module and its reference table of function ranges."
